@@ -5,7 +5,7 @@ import json, os, re, subprocess, sys
 name = sys.argv[1]
 D = f"/verif/seeded/{name}"
 ID, M = name.split("-")
-REPO = "/tmp/seedeval/repo"
+REPO = os.environ.get("SEEDEVAL_DIR", "/tmp/seedeval") + "/repo"
 env = dict(os.environ, GOFLAGS="-mod=mod", GOPROXY="off")
 def sh(c, timeout=1800):
     p = subprocess.run(c, shell=True, cwd=REPO, env=env, capture_output=True, text=True, timeout=timeout)
